@@ -241,10 +241,13 @@ func walkType(t types.Type, path string, f func(l leaf, t types.Type, part strin
 type unsupportedErr struct{ msg string }
 
 func (u unsupportedErr) Error() string { return "unsupported: " + u.msg }
-func unsupported(msg string) error    { return unsupportedErr{msg} }
+func unsupported(msg string) error     { return unsupportedErr{msg} }
 
 // unflatten builds a Value of type t from leaf terms supplied by next.
 func unflatten(t types.Type, path string, next func(l leaf) *Term) Value {
+	if _, isMap := t.Underlying().(*types.Map); isMap {
+		return newMapV(next(leaf{path, SInt, nil}), t)
+	}
 	if s, r, ok := scalarSort(t); ok {
 		return Sc{next(leaf{path, s, r})}
 	}
@@ -289,6 +292,8 @@ func flatten(v Value, t types.Type, path string, emit func(l leaf, x *Term)) {
 			emit(leaf{path, s, r}, vv.T)
 		case Fn:
 			emit(leaf{path, s, r}, vv.T)
+		case MapV:
+			emit(leaf{path, s, r}, vv.Ref)
 		default:
 			panic(fmt.Sprintf("flatten: scalar type %s got %T", t, v))
 		}
